@@ -30,3 +30,21 @@ def open_font(path, **kw):
 
 def rel(path):
     return os.path.relpath(path, REPO)
+
+_TTX_CACHE = {}
+def ttx_bytes(path):
+    """compile a corpus .ttx to a binary font (cached per process); None if it does not compile"""
+    if path in _TTX_CACHE: return _TTX_CACHE[path]
+    from fontTools.ttLib import TTFont
+    try:
+        f = TTFont(); f.importXML(path)
+        b = io.BytesIO(); f.save(b); data = b.getvalue()
+    except Exception:
+        data = None
+    _TTX_CACHE[path] = data
+    return data
+
+def find(name):
+    for root, _, files in os.walk(os.path.join(REPO, "Tests")):
+        if name in files: return os.path.join(root, name)
+    return None
